@@ -7,11 +7,18 @@ rnd = int(sys.argv[2]) if len(sys.argv) > 2 else 1
 p = [json.loads(l) for l in open('/verif/properties.jsonl') if l.strip() and json.loads(l)['id'] == pid][0]
 txt = f"{p['id']} — {p['title']}\n\nStatement: {p['statement']}\n\nQuantifier: {p['quantifier']['text']}\n\nAnchors (files): {', '.join(p['anchors']['files'])}\n"
 demo = f"/tmp/seed_{pid}_demo" + ("" if rnd == 1 else str(rnd))
-extra = "" if rnd == 1 else ("(second round — other engineers have already tried the obvious one-line boundary flips, dropped nil guards and swapped masks; look for SUBTLER ones: two cooperating sites that each look fine alone, state that leaks between calls or between the steps of a multi-step sequence, shared buffers, order-of-evaluation changes, behaviour that differs only for a rarely used flag / era / format / hash type / call path, integer-width or sign edge cases, caching, refactors that lose a special case) ")
+tried = ""
+if rnd >= 3:
+    import glob, os
+    ideas = []
+    for m in sorted(glob.glob(f"/verif/seeded/{pid}-*/meta.json")):
+        ideas.append("   - " + json.load(open(m)).get("needs", ""))
+    tried = ("\nALREADY TRIED by earlier rounds (what each change needed in order to show up) — propose changes of a DIFFERENT kind, in different functions where possible:\n" + "\n".join(ideas) + "\n")
+extra = "" if rnd == 1 else ("(later round — other engineers have already tried the obvious one-line boundary flips, dropped nil guards and swapped masks; look for SUBTLER ones: two cooperating sites that each look fine alone, state that leaks between calls or between the steps of a multi-step sequence, shared buffers, order-of-evaluation changes, behaviour that differs only for a rarely used flag / era / format / hash type / call path, integer-width or sign edge cases, caching, refactors that lose a special case) ")
 print(f"""You are a careful adversarial engineer. Below is a semantic property that the Go library libsv/go-bt (Bitcoin SV transactions + script interpreter) is supposed to satisfy. You have your own scratch git worktree of the library at /tmp/seed_{pid} (work ONLY there and under {demo}; do not look at or touch /repo, /verif or any other directory; no network). Per shell call first run: export GOFLAGS=-mod=mod GOPROXY=off GOSUMDB=off GOTOOLCHAIN=local
 
 PROPERTY
-{txt}
+{txt}{tried}
 TASK {extra}: produce THREE different, independent, realistic code changes (bugs a maintainer could plausibly introduce: an off-by-one at a boundary, a dropped guard, a wrong mask, a swapped order, an optimisation that shares a buffer, a refactor that loses a special case, two sites that each look fine alone…) to the library source, each of which BREAKS the property while (a) the library still compiles, and (b) the library's existing test suite still passes completely: `cd /tmp/seed_{pid} && go test -mod=mod -vet=off -count=1 ./...` must print no FAIL. Prefer changes that need something specific to manifest — an unusual input, a particular boundary value, a multi-step sequence, a rarely used flag or code path — rather than ones ordinary use would expose at once; they must not be caught by the existing tests. Do not change any *_test.go file or test data. Each change should be small (a few lines) and touch only non-test .go files of the library.
 
 For each change i = 1..3:
